@@ -399,6 +399,20 @@ fn eval_axis_node_test(
         },
     };
 
+    // A prefix without a namespace binding in the expression context is an error, whether or not
+    // the step has any candidate node to test.
+    match test {
+        expr::NodeTest::Name(expr::NameTest::QName(qname)) => {
+            context.expanded_name(qname)?;
+        }
+        expr::NodeTest::Name(expr::NameTest::Namespace(prefix)) => {
+            if context.get_ns_uri(Some(prefix)).is_none() {
+                return Err(error::Error::NotFoundNamespace(prefix.to_string()));
+            }
+        }
+        _ => {}
+    }
+
     // A name test selects only nodes of the principal node type of the axis.
     let principal = match axis {
         expr::AxisSpecifier::Abbreviated(v) if v.as_str() == "@" => dom::NodeType::Attribute,
